@@ -61,9 +61,17 @@ func init() {
 					}
 					if a.Kind == "HorizontalPodAutoscaler" {
 						// recogniser of the known finding: another scalable resource of a DIFFERENT kind has the same original name
+						// … at any point of their rename chains (the rules are applied one referent kind after the other,
+						// so a later rule can match the value an earlier rule has just written)
+						bn := t.chainNames(b)
 						for _, x := range t.Res {
-							if x != b && x.Name == b.Name && x.Kind != b.Kind && ruleFrozen(x.Kind, "HorizontalPodAutoscaler", "spec/scaleTargetRef/name") {
-								cls = "hpa-scaleTargetRef-kind-ignored"
+							if x == b || x.Kind == b.Kind || !ruleFrozen(x.Kind, "HorizontalPodAutoscaler", "spec/scaleTargetRef/name") {
+								continue
+							}
+							for n := range t.chainNames(x) {
+								if bn[n] {
+									cls = "hpa-scaleTargetRef-kind-ignored"
+								}
 							}
 						}
 					}
